@@ -121,7 +121,7 @@ Proof.
   intros iv sc ob. unfold o_not_early, s_not_early. rewrite forallb_forall. split.
   - intros H r i v Hin. specialize (H (r, ERecv i v) Hin). cbn [fst snd] in H.
     apply Z.leb_le. exact H.
-  - intros H [r [i v|i|c]] Hin; cbn [fst snd]; try reflexivity.
+  - intros H [r [i v|i|c|c i0]] Hin; cbn [fst snd]; try reflexivity.
     apply Z.leb_le. exact (H r i v Hin).
 Qed.
 
@@ -134,7 +134,7 @@ Proof.
     pose proof (proj1 (existsb_false_forall _ _) H (v', k) Hb) as Hf. cbn [fst snd] in Hf.
     rewrite (proj2 (Z.ltb_lt v v') Hlt), Z.eqb_refl in Hf. cbn [andb] in Hf.
     apply Z.ltb_ge in Hf. exact Hf.
-  - intros H [r [i v|i|c]] Hin; cbn [fst snd]; try reflexivity.
+  - intros H [r [i v|i|c|c i0]] Hin; cbn [fst snd]; try reflexivity.
     apply negb_true_iff. unfold superseded_inside.
     destruct (batch_key sc v) as [k|] eqn:Hk; [|reflexivity]. cbv zeta.
     apply existsb_false_forall. intros [v' k'] Hb. cbn [fst snd].
@@ -208,7 +208,7 @@ Proof.
   destruct (find (fun e : Z * oev => match snd e with EDone c' => c' =? c | _ => false end) ob)
     as [[d' ev]|] eqn:Ef; [|discriminate H].
   apply find_some in Ef. destruct Ef as [Hin Hev]. cbn [fst snd] in *.
-  injection H as ->. destruct ev as [i v|i|c']; try discriminate Hev.
+  injection H as ->. destruct ev as [i v|i|c'|c' i0]; try discriminate Hev.
   apply Z.eqb_eq in Hev. subst c'. exact Hin.
 Qed.
 
@@ -273,7 +273,7 @@ Proof.
   - intros H c Hin. unfold close_ok. destruct (done_step ob c) as [d|] eqn:Ed; [|reflexivity].
     destruct (H c0 c d eq_refl Hin Ed) as [HA HB]. apply andb_true_iff.
     split; apply forallb_forall.
-    + intros [r [i v|i|c']] Hin'; cbn [fst snd]; try reflexivity.
+    + intros [r [i v|i|c'|c' i0]] Hin'; cbn [fst snd]; try reflexivity.
       apply Z.leb_le. exact (HA r i v Hin').
     + intros [i [p pr]] Hin'. cbv zeta. cbn [fst snd].
       destruct (done_step ob p) as [q|] eqn:Eq; [|reflexivity].
@@ -307,6 +307,16 @@ Proof.
     apply Z.leb_le. exact Hzr.
 Qed.
 
+(* 9. at the return of Close *)
+Lemma o_at_return_sound : forall sc ob, o_at_return sc ob = true <-> s_at_return sc ob.
+Proof.
+  intros sc ob. unfold o_at_return, s_at_return. rewrite forallb_forall. split.
+  - intros H r c i Hin. specialize (H (r, EOpen c i) Hin). cbn [snd] in H.
+    destruct (sub_accepted sc ob i); [discriminate H|reflexivity].
+  - intros H [r [i v|i|c|c i]] Hin; cbn [snd]; try reflexivity.
+    rewrite (H r c i Hin). reflexivity.
+Qed.
+
 (* ---------------------------------------------------------------------------------------- *)
 (* the oracle decides the spec *)
 
@@ -314,14 +324,15 @@ Theorem oracle_sound : forall iv sc ob, oracle iv sc ob = true <-> spec iv sc ob
 Proof.
   intros iv sc ob. unfold oracle, spec. rewrite !andb_true_iff.
   rewrite o_valid_sound, o_once_sound, o_not_early_sound, o_suppress_sound, o_due_order_sound,
-    o_same_order_sound, o_no_hole_sound, o_complete_sound, o_close_sound, o_depart_sound.
+    o_same_order_sound, o_no_hole_sound, o_complete_sound, o_close_sound, o_depart_sound,
+    o_at_return_sound.
   split.
-  - intros [[[[[[[[[[H0 H1] H2] H3] H4] H5] H6] H7] H8] H9] H10].
+  - intros [[[[[[[[[[[H0 H1] H2] H3] H4] H5] H6] H7] H8] H9] H10] H11].
     pose proof (proj1 (o_no_wedge_sound sc ob H0) H7) as H7'.
-    exact (conj H0 (conj H1 (conj H2 (conj H3 (conj H4 (conj H5 (conj H6 (conj H7' (conj H8 (conj H9 H10)))))))))).
-  - intros [H0 [H1 [H2 [H3 [H4 [H5 [H6 [H7 [H8 [H9 H10]]]]]]]]]].
+    exact (conj H0 (conj H1 (conj H2 (conj H3 (conj H4 (conj H5 (conj H6 (conj H7' (conj H8 (conj H9 (conj H10 H11))))))))))).
+  - intros [H0 [H1 [H2 [H3 [H4 [H5 [H6 [H7 [H8 [H9 [H10 H11]]]]]]]]]]].
     pose proof (proj2 (o_no_wedge_sound sc ob H0) H7) as H7'.
-    exact (conj (conj (conj (conj (conj (conj (conj (conj (conj (conj H0 H1) H2) H3) H4) H5) H6) H7') H8) H9) H10).
+    exact (conj (conj (conj (conj (conj (conj (conj (conj (conj (conj (conj H0 H1) H2) H3) H4) H5) H6) H7') H8) H9) H10) H11).
 Qed.
 
 (* Non-vacuity: both sides hold on a concrete run (one prompt subscriber, one Batch, the clock
